@@ -47,7 +47,9 @@ def expected(R, C, kind, lexfail, empty, eof):
     if R == 1:
         if kind == "error":
             ex = "break" if empty else "next"
-            return ("subset", {(1, 0, ("pop-cursor",), ex), (1, 0, ("pop-cursor", "pop-value"), ex)})
+            # the two pops are independent of each other: either order is the documented "pop one state and its value"
+            return ("subset", {(1, 0, ("pop-cursor",), ex), (1, 0, ("pop-cursor", "pop-value"), ex),
+                               (1, 0, ("pop-value", "pop-cursor"), ex)})
         if kind in ("reduce", "rr_conflict"):
             return ("exact", {(1, 0, ("reduce",), "next")})
         if kind == "shift_error_recovery_token":
